@@ -1,9 +1,9 @@
 """C12 aggregation state can be checkpointed and resumed without changing results (structural argument)"""
-from ..rules import folds
+from ..rules import folds, dasksib
 from .common import declare
 
-RULES = ['BATCH-PURE', 'FOLD-PURE', 'STATE-PLUMB', 'CTOR-COPY', 'ACC-CONTRACT', 'FOLD-DERIVE']
-FLOORS = {'FOLD-PURE': 50, 'STATE-PLUMB': 12, 'CTOR-COPY': 3, 'ACC-CONTRACT': 2, 'FOLD-DERIVE': 14}
+RULES = ['BATCH-PURE', 'FOLD-PURE', 'STATE-PLUMB', 'CTOR-COPY', 'ACC-CONTRACT', 'FOLD-DERIVE', 'SIBLING-SIG']
+FLOORS = {'FOLD-PURE': 50, 'STATE-PLUMB': 12, 'CTOR-COPY': 3, 'ACC-CONTRACT': 2, 'FOLD-DERIVE': 14, 'SIBLING-SIG': 3}
 
 META = {
     'level': "Static argument that needs no numeric reasoning: if every fold operator is a pure function of (state, batch, "
@@ -23,10 +23,11 @@ META = {
 def run(ctx, R):
     R.explanation = 'Purity of all fold operators, and plumbing of start/with_state from the public API to Stream.accumulate.'
     R.not_decided = ['numeric results; only that resumed and uninterrupted runs perform the same calls']
-    declare(R, folds.RULES, RULES, FLOORS)
+    declare(R, {**folds.RULES, 'SIBLING-SIG': dasksib.RULES['SIBLING-SIG'] + ' (the Dask accumulate hands out and keeps its state exactly as the local one does: a state future it releases or cancels can no longer be fetched as a checkpoint)'}, RULES, FLOORS)
     R.run(folds.check_fold_pure, ctx, R)
     R.run(folds.check_batch_pure, ctx, R)
     R.run(folds.check_state_plumb, ctx, R)
     R.run(folds.check_ctor_copy, ctx, R)
     R.run(folds.check_acc_contract, ctx, R)
     R.run(folds.check_fold_derive, ctx, R, steps=('on_new', 'on_old'))
+    R.run(dasksib.check_sibling_sig, ctx, R)
